@@ -72,6 +72,29 @@ Proof.
   - rewrite E. f_equal. rewrite Hr, Nat.sub_diag. cbn. now rewrite app_nil_r.
 Qed.
 
+(* the accumulation reads the in-matrix slots of row i only: &B * &v does not see padding, over ANY arithmetic
+   (band_mul_spec of Props/C04.v has this under ring laws) *)
+Lemma acc_from_ext (x : T) len lo (t t' : nat -> T) :
+  (forall j, lo <= j < lo + len -> t j = t' j) -> acc_from x len lo t = acc_from x len lo t'.
+Proof.
+  revert x lo; induction len as [|len IH]; intros x lo H; [reflexivity|].
+  cbn [acc_from]. rewrite (H lo) by lia. apply IH. intros j Hj. apply H. lia.
+Qed.
+
+Lemma band_mul_padding_any_lemma (B B' : banded) (v : list T) :
+  wfB B -> length v = bn B -> same_in_matrix_slots B B' -> band_mul B' v = band_mul B v.
+Proof.
+  intros Hwf Hv HS. pose proof HS as (Hwf' & Hn & H1 & H2 & H).
+  rewrite (band_mul_acc B v Hwf Hv), (band_mul_acc B' v Hwf') by congruence.
+  rewrite Hn. f_equal. apply map_ext_in. intros i Hi. apply in_seq in Hi.
+  unfold row_acc, row_cnt, row_lo, row_term. rewrite Hn, H1, H2.
+  apply acc_from_ext. intros s Hs. f_equal.
+  set (j := s + i - bm1 B).
+  assert (Hb : in_band (bm1 B) (bm2 B) i j = true) by (apply in_band_iff; unfold j; lia).
+  specialize (H i j ltac:(lia) ltac:(unfold j; lia) Hb).
+  replace (band_slot (bm1 B) i j) with s in H by (unfold band_slot, j; lia). exact H.
+Qed.
+
 End Acc.
 
 (* ------------------------------------------------------------------ (2) real-number lemmas *)
